@@ -110,6 +110,12 @@ theorem eight_bit_number_range (exc : List (Nat × Nat)) (t : Triplet) (h : t.WF
    toEightBitNumber_grey exc t h,
    fun hs => ⟨(toEightBitNumber_cube exc t h hs).1, (toEightBitNumber_cube exc t h hs).2.2⟩⟩
 
+/-- The tabulated float exceptions are all exact ties `s = 1/10` with `min < max ≤ 255`: the model's
+saturation test is the exact rational one except at nine points *on* its boundary. -/
+theorem sat_exceptions_are_ties :
+    ∀ p ∈ satExcDouble, p.2 < p.1 ∧ p.1 ≤ 255 ∧
+      10 * (p.1 - p.2) = (if p.1 + p.2 ≤ 255 then p.1 + p.2 else 510 - p.1 - p.2) := by decide
+
 /-- **Greys land on the grey ramp or black/white**: for `r = g = b = v`, whatever the float
 exception list, the conversion to 256 colours gives number 16, 231 or 232..255 — namely the grey
 level `(10 v + 51) / 102` (= `round(v / 255 * 25)`) mapped 0 ↦ 16, 25 ↦ 231, g ↦ 231 + g. -/
